@@ -116,3 +116,17 @@ pub fn duplicator() -> Box<dyn FnMut(i64, &'static str, u64, &[u8]) -> Option<Ve
         Some(out)
     })
 }
+
+/// the datagram that arrives from the spoofed address carries only probing frames (PATH_CHALLENGE + PADDING): the server
+/// must probe the address without migrating to it, within the address's own budget
+pub fn probe_rewriter() -> Box<dyn FnMut(i64, &'static str, u64, &[u8]) -> Option<Vec<u8>> + Send> {
+    Box::new(move |conn, sp, _pn, payload| {
+        if conn != 0 || sp != "a" || !crate::common::SPOOF_FLAG.with(|f| f.replace(false)) {
+            return None;
+        }
+        let mut out = vec![0x1a, 1, 2, 3, 4, 5, 6, 7, 8];
+        out.resize(payload.len().max(9), 0);
+        crate::common::emit(serde_json::json!({"ev": "probe_rewritten", "len": out.len()}));
+        Some(out)
+    })
+}
